@@ -189,6 +189,8 @@ func checkC09(c *Ctx) {
 	c.checkNotePermissions(handler)
 	c.checkRemovedSenderDegraded(handler)
 	c.checkOfflineInfoSkipsOrigin()
+	c.checkOfflineInfoReaders()
+	c.checkPublisherMarksAfterSave()
 	c.checkIntersect()
 
 	// (4) fan-out
